@@ -51,7 +51,7 @@ ASSUMPTIONS = [
 
 
 def run_lean_unit(lines):
-    return core.run_lean(lines, main="Driver/Main_Api.lean")
+    return core.run_lean(lines)
 
 
 # ------------------------------------------------------------------ specs -> objects
